@@ -96,6 +96,15 @@ func rmHist(args []string) error {
 		}
 		defer iotw.Close()
 	}
+	// optionally record the Run loop's protocol events (hook VerifRM) for RunLoopTrace
+	var ptw *trace.Writer
+	if p := os.Getenv("VERIF_RMTRACE"); p != "" {
+		ptw, err = trace.New(p)
+		if err != nil {
+			return err
+		}
+		defer ptw.Close()
+	}
 	for w := 0; w < windows; w++ {
 		dbCounter++
 		memKB := 2000
@@ -138,6 +147,16 @@ func rmHist(args []string) error {
 			e.RefreshStats()
 		}
 		tw.Emit(map[string]interface{}{"ev": "Reset", "rows": init, "clients": nclients, "gomaxprocs": procs})
+		if ptw != nil {
+			ptw.Emit(map[string]interface{}{"ev": "Reset"})
+			samehada.VerifRM = func(ev string, id uint64) {
+				n := 0
+				if id != ^uint64(0) {
+					n = int(id) + 1
+				}
+				ptw.Emit(map[string]interface{}{"ev": ev, "id": n})
+			}
+		}
 		var clock int64
 		var ver int64 = 100
 		var nextKey int64 = 100
@@ -215,6 +234,10 @@ func rmHist(args []string) error {
 		fin.inv = atomic.AddInt64(&clock, 1)
 		ferr, frows := e.DB.ExecuteSQL("SELECT k, v FROM rt WHERE k >= 0 AND k <= 1000000;")
 		fin.ret = atomic.AddInt64(&clock, 1)
+		if ptw != nil {
+			time.Sleep(20 * time.Millisecond) // let the Run loop finish the turn of the last delivery
+			samehada.VerifRM = nil
+		}
 		if ferr != nil {
 			fin.res = "err:" + ferr.Error()
 		} else {
